@@ -111,13 +111,16 @@ PROPS = {
     ),
     "C13": dict(
         pkg="c13", level="exploration",
-        tests=[T("TestC13", Q(30000), Q(150000, timeout=900, shards=8))],
+        tests=[T("TestC13", Q(30000), Q(150000, timeout=900, shards=8)),
+               T("TestC13Raft", Q(3000, timeout=300), Q(20000, timeout=900, shards=4))],
         rule="Sequences of 1-40 operations on the real kv.LFSM: set/delete with keys from a path alphabet (/tables/a, /tables/a/lease, /tables/sys/idseq, /cleanup/N/id, queue/T/n, '', ...), "
              "UTF-8 values (JSON-looking, quotes, escapes, unicode, arbitrary rapid strings) and versions in {0, current, stale, future}; lookups get/exists/getall/getallvalues/list/listdir with the callers' "
              "glob patterns; snapshot+restore into a fresh store at any point; a second replica fed the same entries under a different grouping into Update calls. Oracle: CAS rule against a model map "
              "key->(value,version), mismatch result carries the current pair, new version == entry index > all earlier; glob answers == independent matcher for '<prefix>/*' shapes and == a fresh MapStore "
-             "holding exactly the model's pairs; replicas and restored store byte-equal. Non-trivial iff some key saw both a rejected and an accepted update AND a snapshot/restore happened.",
-        assumptions=["values are valid UTF-8 (every caller JSON-encodes them)", "RaftStore's error mapping on a live NodeHost is exercised by the engine-based checks (C14/C15 fixtures)"],
+             "holding exactly the model's pairs; replicas and restored store byte-equal. Non-trivial iff some key saw both a rejected and an accepted update AND a snapshot/restore happened. "
+             "TestC13Raft: the same operation generator against kv.RaftStore on a real single-node NodeHost (proposal path, result-code to ErrVersionMismatch mapping, stale reads): Set/Delete succeed iff the CAS rule allows, a mismatch returns the current pair, "
+             "new versions exceed all earlier ones, Get/Exists/GetAll == model (non-trivial iff a key saw both a rejected and an accepted Set).",
+        assumptions=["values are valid UTF-8 (every caller JSON-encodes them)"],
         technique="stateful property-based testing against a CAS-register-map model + replica differential + snapshot round trip",
         level_text="Randomised exploration of update/lookup/snapshot histories on the real state machine of the metadata store.",
         level_note="Trusted: the model map; path helper semantics (List/ListDir) are compared with a fresh MapStore holding the model's pairs, not re-specified.",
